@@ -23,7 +23,7 @@ const (
 )
 
 type jv struct {
-	src string // objects read by parseJSON: the source text of the value
+	src string // values read by parseJSON: the source text of the value
 	k   int
 	b   bool
 	s   string // string value or number text
@@ -268,7 +268,17 @@ func (p *jparser) lit(s string) bool {
 	return false
 }
 
+// value parses one value and records its source text.
 func (p *jparser) value(depth int) (*jv, bool) {
+	start := p.i
+	v, ok := p.value1(depth)
+	if ok && v != nil {
+		v.src = string(p.d[start:p.i])
+	}
+	return v, ok
+}
+
+func (p *jparser) value1(depth int) (*jv, bool) {
 	if p.i >= len(p.d) || depth > 200 {
 		return nil, false
 	}
@@ -312,10 +322,8 @@ func (p *jparser) value(depth int) (*jv, bool) {
 			return nil, false
 		}
 	case c == '{':
-		start := p.i
 		p.i++
 		v := &jv{k: jObj}
-		defer func() { v.src = string(p.d[start:p.i]) }()
 		seen := map[string]bool{}
 		p.ws()
 		if p.i < len(p.d) && p.d[p.i] == '}' {
